@@ -194,7 +194,7 @@ class Gen:
         # be used there - membership belongs to a connection)
         hr = util.Rng(int(util.digest([self.tid, len(self.ops)])[:12], 16))
         for op in self.ops:
-            if op["op"] in ("send", "poll", "store_offset", "get_offset", "delete_offset", "get_topic") and not op.get("decoy") \
+            if op["op"] in ("send", "poll", "store_offset", "get_offset", "delete_offset", "get_topic", "update_topic", "purge_topic", "flush") and not op.get("decoy") \
                     and (op.get("consumer") or {}).get("kind") != "group" and hr.random() < HTTP_SHARE:
                 op["c"] = "httproot"
         return {"id": self.tid, "cfg": self.cfg, "ops": setup + self.ops}
